@@ -317,7 +317,9 @@ def check_all(prog, declared, roots=None):
     obls = []; sums = {}
     quals = []
     for mname, m in prog.modules.items():
-        for local in m.funcs: quals.append(f'{mname}:{local}')
+        for local in m.funcs:
+            if f'{mname}:{local}' in getattr(prog, 'extracted', {}): continue      # a mechanically extracted block is part of a function already analysed
+            quals.append(f'{mname}:{local}')
     for q in quals:
         try: s = an.summarize(q)
         except Exception as e:
